@@ -1,18 +1,26 @@
 """Translator for C08: the constants of the pending-call machinery.
 
 Reads the SOURCE (AST) of txdbus/client.py and txdbus/message.py of the working tree and writes
-lean/TxdbusModel/Gen/C08Client.lean:
+lean/TxdbusModel/Gen/C08Client.lean.  Everything is located structurally, not by position:
 
-  * `_NO_CHECK_RETURN` (the sentinel default of callRemote's returnSignature);
-  * the texts `_cbCvtReply` raises RemoteError with: the plain text, the '{}' format (emitted as
-    the three pieces around its two '{}' fields) and the '%s' wrapper (two pieces); and the
-    character the single-value test compares `msg.signature[0]` with;
-  * the text `_onMethodTimeout` builds TimeOut with;
-  * the initial value and the increment of the process-wide serial counter
-    (`DBusMessage._nextSerial = 1`, `DBusMessage._nextSerial += 1`).
+  * `_NO_CHECK_RETURN`: a module-level string constant -> `some "<text>"`; any other expression (e.g.
+    `object()`) -> `none` (no `str` return signature can be equal to it);
+  * `_cbCvtReply`: the arguments of the `raise error.RemoteError(...)` statements are evaluated
+    symbolically into templates: a list of literal pieces and holes (`str(returnSignature)`,
+    `str(msg.signature)`).  `%`-formatting with `%s`, `str.format` with `{}`, f-strings, `+`
+    concatenation and local names assigned once before use are understood.  The first `raise` in
+    source order is the "no value declared" text, the second the "declared signature differs" text;
+    the character `msg.signature[0]` is compared with comes from that `Compare` node;
+  * `_onMethodTimeout`: the template of the argument of `error.TimeOut(...)` (must be hole-free);
+  * `DBusMessage._marshal`: under `if newSerial:` the serial is READ from `DBusMessage._nextSerial`
+    into `self.serial` and only then advanced by `+= <positive int>` (the step is emitted; the
+    read-before-step order and the source of the read are checked);
+  * `connectionLost`: is the call of each disconnect callback (`cb(self, reason)` inside the loop over
+    `self._dcCallbacks`) guarded by a `try` whose handler catches `Exception` / `BaseException` /
+    everything?  -> `dcGuarded`.
 
-Anything outside that restricted shape (another number of string constants, another number of
-format fields, a counter that is not `+= <int>`) raises TranslatorError: the table obligation of
+Anything outside that (another number of `raise RemoteError`, a hole of another kind, a counter that
+is not advanced by a positive integer constant, ...) raises TranslatorError: the table obligation of
 C08 is then broken and the pipeline widens the search.
 """
 import ast
@@ -40,20 +48,6 @@ def _find_method(tree, cls, name):
     raise TranslatorError('%s.%s not found' % (cls, name))
 
 
-def _strings(fn):
-    """String constants of a function body in source order, the docstring excluded."""
-    body = list(fn.body)
-    if body and isinstance(body[0], ast.Expr) and isinstance(body[0].value, ast.Constant) \
-            and isinstance(body[0].value.value, str):
-        body = body[1:]
-    out = []
-    for stmt in body:
-        for node in ast.walk(stmt):
-            if isinstance(node, ast.Constant) and isinstance(node.value, str):
-                out.append((node.lineno, node.col_offset, node.value))
-    return [s for _, _, s in sorted(out)]
-
-
 def lean_str(s):
     out = ['"']
     for ch in s:
@@ -71,67 +65,254 @@ def lean_str(s):
     return ''.join(out)
 
 
+# --------------------------------------------------------------------------- symbolic templates
+LIT, RS, SIG = 0, 1, 2      # literal text / str(returnSignature) / str(msg.signature)
+
+
+def _norm(parts):
+    out = []
+    for tag, text in parts:
+        if tag == LIT:
+            if not text:
+                continue
+            if out and out[-1][0] == LIT:
+                out[-1] = (LIT, out[-1][1] + text)
+                continue
+        out.append((tag, text))
+    return out
+
+
+class Templates:
+    """Symbolic evaluation of string expressions inside one function."""
+
+    def __init__(self, fn):
+        self.fn = fn
+        self.assigns = {}
+        for node in ast.walk(fn):
+            if isinstance(node, ast.Assign) and len(node.targets) == 1 and isinstance(node.targets[0], ast.Name):
+                self.assigns.setdefault(node.targets[0].id, []).append(node)
+
+    def lookup(self, name, lineno):
+        cands = [a for a in self.assigns.get(name, []) if a.lineno < lineno]
+        if not cands:
+            raise TranslatorError('name %r is not assigned before line %d' % (name, lineno))
+        return max(cands, key=lambda a: a.lineno).value
+
+    def hole(self, node):
+        """str(returnSignature) / str(msg.signature), with or without the str()."""
+        if isinstance(node, ast.Call) and isinstance(node.func, ast.Name) and node.func.id == 'str' \
+                and len(node.args) == 1 and not node.keywords:
+            node = node.args[0]
+        if isinstance(node, ast.Name) and node.id == 'returnSignature':
+            return [(RS, '')]
+        if isinstance(node, ast.Attribute) and node.attr == 'signature' and isinstance(node.value, ast.Name):
+            return [(SIG, '')]
+        return None
+
+    def ev(self, node):
+        h = self.hole(node)
+        if h is not None:
+            return h
+        if isinstance(node, ast.Constant) and isinstance(node.value, str):
+            return [(LIT, node.value)]
+        if isinstance(node, ast.Name):
+            return self.ev(self.lookup(node.id, node.lineno))
+        if isinstance(node, ast.JoinedStr):
+            out = []
+            for v in node.values:
+                if isinstance(v, ast.Constant):
+                    out.append((LIT, v.value))
+                elif isinstance(v, ast.FormattedValue) and v.format_spec is None and v.conversion in (-1, 115):
+                    out += self.ev(v.value)
+                else:
+                    raise TranslatorError('unsupported f-string piece at line %d' % node.lineno)
+            return out
+        if isinstance(node, ast.BinOp) and isinstance(node.op, ast.Add):
+            return self.ev(node.left) + self.ev(node.right)
+        if isinstance(node, ast.BinOp) and isinstance(node.op, ast.Mod):
+            fmt = self.ev(node.left)
+            args = node.right.elts if isinstance(node.right, ast.Tuple) else [node.right]
+            return self.fill(fmt, '%s', [self.ev(a) for a in args], node.lineno)
+        if isinstance(node, ast.Call) and isinstance(node.func, ast.Attribute) and node.func.attr == 'format' \
+                and not node.keywords:
+            fmt = self.ev(node.func.value)
+            return self.fill(fmt, '{}', [self.ev(a) for a in node.args], node.lineno)
+        raise TranslatorError('unsupported string expression at line %d: %s' % (node.lineno, ast.dump(node)[:120]))
+
+    @staticmethod
+    def fill(fmt, marker, args, lineno):
+        out = []
+        args = list(args)
+        for tag, text in fmt:
+            if tag != LIT:
+                out.append((tag, text))
+                continue
+            pieces = text.split(marker)
+            for i, p in enumerate(pieces):
+                if i:
+                    if not args:
+                        raise TranslatorError('more %r fields than arguments at line %d' % (marker, lineno))
+                    out += args.pop(0)
+                out.append((LIT, p))
+        if args:
+            raise TranslatorError('more arguments than %r fields at line %d' % (marker, lineno))
+        joined = ''.join(t for tag, t in out if tag == LIT)
+        if marker == '%s' and '%' in joined.replace('%%', ''):
+            raise TranslatorError('unsupported %% directive at line %d' % lineno)
+        return out
+
+
+def _raises_of(fn, exc_attr):
+    """Argument nodes of `raise <x>.<exc_attr>(arg)` in source order."""
+    out = []
+    for node in ast.walk(fn):
+        if isinstance(node, ast.Raise) and isinstance(node.exc, ast.Call):
+            f = node.exc.func
+            name = f.attr if isinstance(f, ast.Attribute) else (f.id if isinstance(f, ast.Name) else None)
+            if name == exc_attr:
+                if len(node.exc.args) != 1 or node.exc.keywords:
+                    raise TranslatorError('raise %s(...) with other than one argument at line %d' % (exc_attr, node.lineno))
+                out.append((node.lineno, node.exc.args[0]))
+    return [a for _, a in sorted(out, key=lambda x: x[0])]
+
+
+def _lean_template(parts):
+    return '[' + ', '.join('(%d, %s)' % (tag, lean_str(text)) for tag, text in _norm(parts)) + ']'
+
+
 def emit(repo):
     ctree = _parse(repo, 'client.py')
     mtree = _parse(repo, 'message.py')
 
-    # _NO_CHECK_RETURN
-    sentinel = None
+    # ---- _NO_CHECK_RETURN
+    sentinel = 'missing'
     for node in ctree.body:
         if isinstance(node, ast.Assign) and len(node.targets) == 1 and \
                 isinstance(node.targets[0], ast.Name) and node.targets[0].id == '_NO_CHECK_RETURN':
             if isinstance(node.value, ast.Constant) and isinstance(node.value.value, str):
                 sentinel = node.value.value
-    if sentinel is None:
-        raise TranslatorError('_NO_CHECK_RETURN is not a module-level string constant')
+            else:
+                sentinel = None
+    if sentinel == 'missing':
+        raise TranslatorError('_NO_CHECK_RETURN is not assigned at module level')
 
+    # ---- _cbCvtReply
     cvt = _find_method(ctree, 'DBusClientConnection', '_cbCvtReply')
-    strs = _strings(cvt)
-    if len(strs) != 4:
-        raise TranslatorError('_cbCvtReply: expected 4 string constants, found %r' % (strs,))
-    plain, fmt, wrap, paren = strs
-    fparts = fmt.split('{}')
-    if len(fparts) != 3 or '{' in ''.join(fparts) or '}' in ''.join(fparts):
-        raise TranslatorError('_cbCvtReply: format %r does not have exactly two {} fields' % (fmt,))
-    wparts = wrap.split('%s')
-    if len(wparts) != 2 or '%' in ''.join(wparts):
-        raise TranslatorError('_cbCvtReply: wrapper %r does not have exactly one %%s field' % (wrap,))
-    if len(paren) != 1:
-        raise TranslatorError('_cbCvtReply: struct marker %r is not one character' % (paren,))
+    tpl = Templates(cvt)
+    raises = _raises_of(cvt, 'RemoteError')
+    if len(raises) != 2:
+        raise TranslatorError('_cbCvtReply: expected 2 `raise error.RemoteError(...)`, found %d' % len(raises))
+    plain = _norm(tpl.ev(raises[0]))
+    mismatch = _norm(tpl.ev(raises[1]))
+    if any(tag != LIT for tag, _ in plain):
+        raise TranslatorError('_cbCvtReply: the first RemoteError text is not a constant')
+    paren = None
+    for node in ast.walk(cvt):
+        if isinstance(node, ast.Compare) and len(node.comparators) == 1:
+            sides = [node.left, node.comparators[0]]
+            sub = [s for s in sides if isinstance(s, ast.Subscript) and isinstance(s.value, ast.Attribute)
+                   and s.value.attr == 'signature']
+            con = [s for s in sides if isinstance(s, ast.Constant) and isinstance(s.value, str)]
+            if sub and con:
+                idx = sub[0].slice
+                if not (isinstance(idx, ast.Constant) and idx.value == 0) or len(con[0].value) != 1:
+                    raise TranslatorError('_cbCvtReply: unexpected comparison on msg.signature at line %d' % node.lineno)
+                if paren is not None:
+                    raise TranslatorError('_cbCvtReply: two comparisons on msg.signature[0]')
+                paren = con[0].value
+    if paren is None:
+        raise TranslatorError('_cbCvtReply: no comparison of msg.signature[0] with a character')
 
+    # ---- _onMethodTimeout
     tmo = _find_method(ctree, 'DBusClientConnection', '_onMethodTimeout')
-    tstrs = _strings(tmo)
-    if len(tstrs) != 1:
-        raise TranslatorError('_onMethodTimeout: expected 1 string constant, found %r' % (tstrs,))
+    ttext = None
+    ttpl = Templates(tmo)
+    for node in ast.walk(tmo):
+        if isinstance(node, ast.Call):
+            f = node.func
+            name = f.attr if isinstance(f, ast.Attribute) else (f.id if isinstance(f, ast.Name) else None)
+            if name == 'TimeOut':
+                if len(node.args) != 1:
+                    raise TranslatorError('_onMethodTimeout: TimeOut(...) with other than one argument')
+                parts = _norm(ttpl.ev(node.args[0]))
+                if any(tag != LIT for tag, _ in parts) or ttext is not None:
+                    raise TranslatorError('_onMethodTimeout: TimeOut text not a single constant')
+                ttext = ''.join(t for _, t in parts)
+    if ttext is None:
+        raise TranslatorError('_onMethodTimeout: no error.TimeOut(...)')
 
-    # serial counter
-    init = None
-    for node in mtree.body:
-        if isinstance(node, ast.ClassDef) and node.name == 'DBusMessage':
-            for sub in node.body:
-                if isinstance(sub, ast.Assign) and len(sub.targets) == 1 and \
-                        isinstance(sub.targets[0], ast.Name) and sub.targets[0].id == '_nextSerial':
-                    if isinstance(sub.value, ast.Constant) and type(sub.value.value) is int:
-                        init = sub.value.value
-    if init is None:
-        raise TranslatorError('DBusMessage._nextSerial is not an integer class constant')
+    # ---- serial counter: read, then step, under `if newSerial:`
     marshal = _find_method(mtree, 'DBusMessage', '_marshal')
-    incs = []
-    reads = 0
+    step = None
     for node in ast.walk(marshal):
-        if isinstance(node, ast.AugAssign) and isinstance(node.target, ast.Attribute) \
-                and node.target.attr == '_nextSerial':
-            if not (isinstance(node.op, ast.Add) and isinstance(node.value, ast.Constant)
-                    and type(node.value.value) is int):
-                raise TranslatorError('_nextSerial is not advanced by `+= <int>`')
-            incs.append(node.value.value)
-        elif isinstance(node, ast.Assign) and any(
-                isinstance(t, ast.Attribute) and t.attr == '_nextSerial' for t in node.targets):
-            raise TranslatorError('_nextSerial is assigned inside _marshal')
-        elif isinstance(node, ast.Attribute) and node.attr == '_nextSerial' and isinstance(node.ctx, ast.Load):
-            reads += 1
-    if len(incs) != 1:
-        raise TranslatorError('expected exactly one `_nextSerial += n` in _marshal, found %d' % len(incs))
+        if isinstance(node, ast.If) and isinstance(node.test, ast.Name) and node.test.id == 'newSerial':
+            read_at = step_at = None
+            for i, st in enumerate(node.body):
+                if isinstance(st, ast.Assign) and len(st.targets) == 1 and isinstance(st.targets[0], ast.Attribute) \
+                        and st.targets[0].attr == 'serial' and isinstance(st.targets[0].value, ast.Name) \
+                        and st.targets[0].value.id == 'self':
+                    if not (isinstance(st.value, ast.Attribute) and st.value.attr == '_nextSerial'):
+                        raise TranslatorError('self.serial is not read from DBusMessage._nextSerial')
+                    read_at = i
+                if isinstance(st, ast.AugAssign) and isinstance(st.target, ast.Attribute) \
+                        and st.target.attr == '_nextSerial':
+                    if not (isinstance(st.op, ast.Add) and isinstance(st.value, ast.Constant)
+                            and type(st.value.value) is int and st.value.value > 0):
+                        raise TranslatorError('_nextSerial is not advanced by `+= <positive int>`')
+                    step_at, step = i, st.value.value
+            if read_at is None or step_at is None or not read_at < step_at:
+                raise TranslatorError('under `if newSerial:` the serial is not read and then advanced')
+    if step is None:
+        raise TranslatorError('no `if newSerial:` block advancing _nextSerial in _marshal')
+    others = [n for n in ast.walk(marshal) if isinstance(n, (ast.Assign, ast.AugAssign))
+              and any(isinstance(t, ast.Attribute) and t.attr == '_nextSerial'
+                      for t in (n.targets if isinstance(n, ast.Assign) else [n.target]))]
+    if len(others) != 1:
+        raise TranslatorError('_nextSerial is written %d times in _marshal' % len(others))
+
+    # ---- connectionLost: are the disconnect callbacks guarded?
+    lost = _find_method(ctree, 'DBusClientConnection', 'connectionLost')
+    guarded = None
+
+    def walk(node, in_try):
+        nonlocal guarded
+        if isinstance(node, ast.Try):
+            catches = False
+            for h in node.handlers:
+                names = []
+                if h.type is None:
+                    catches = True
+                elif isinstance(h.type, ast.Tuple):
+                    names = [getattr(e, 'id', getattr(e, 'attr', None)) for e in h.type.elts]
+                else:
+                    names = [getattr(h.type, 'id', getattr(h.type, 'attr', None))]
+                if 'Exception' in names or 'BaseException' in names:
+                    catches = True
+            for b in node.body:
+                walk(b, in_try or catches)
+            for part in (node.handlers, node.orelse, node.finalbody):
+                for b in part:
+                    walk(b, in_try)
+            return
+        if isinstance(node, ast.Call) and isinstance(node.func, ast.Name) and node.func.id == loopvar[0] \
+                and loopvar[0] is not None:
+            if guarded is not None:
+                raise TranslatorError('connectionLost: the disconnect callback is called twice')
+            guarded = in_try
+        for child in ast.iter_child_nodes(node):
+            walk(child, in_try)
+
+    loopvar = [None]
+    loops = 0
+    for node in ast.walk(lost):
+        if isinstance(node, ast.For) and isinstance(node.target, ast.Name) and \
+                any(isinstance(n, ast.Attribute) and n.attr == '_dcCallbacks' for n in ast.walk(node.iter)):
+            loops += 1
+            loopvar[0] = node.target.id
+            for b in node.body:
+                walk(b, False)
+    if loops != 1 or guarded is None:
+        raise TranslatorError('connectionLost: no single loop over self._dcCallbacks calling each callback')
 
     L = []
     L.append('/-')
@@ -140,29 +321,25 @@ def emit(repo):
     L.append('-/')
     L.append('namespace Txdbus.Gen.C08Client')
     L.append('')
-    L.append('/-- `_NO_CHECK_RETURN` -/')
-    L.append('def noCheckReturn : String := %s' % lean_str(sentinel))
+    L.append('/-- `_NO_CHECK_RETURN` when it is a string constant (`none`: some other object, equal to no string) -/')
+    L.append('def noCheckReturn : Option String := %s' % ('none' if sentinel is None else 'some ' + lean_str(sentinel)))
     L.append('')
     L.append('/-- `raise error.RemoteError(...)` for an undeclared return value -/')
-    L.append('def unexpectedSig : String := %s' % lean_str(plain))
-    L.append('/-- the three pieces of the `.format` string around its two `{}` fields -/')
-    L.append('def expectedPre : String := %s' % lean_str(fparts[0]))
-    L.append('def expectedMid : String := %s' % lean_str(fparts[1]))
-    L.append('def expectedPost : String := %s' % lean_str(fparts[2]))
-    L.append('/-- the two pieces of the `%` wrapper around its `%s` field -/')
-    L.append('def wrapPre : String := %s' % lean_str(wparts[0]))
-    L.append('def wrapPost : String := %s' % lean_str(wparts[1]))
+    L.append('def unexpectedSig : String := %s' % lean_str(''.join(t for _, t in plain)))
+    L.append('/-- the text for a declared signature that differs: pieces (0, literal), (1, _) = str(returnSignature),')
+    L.append('(2, _) = str(msg.signature) -/')
+    L.append('def mismatchTemplate : List (Nat × String) := %s' % _lean_template(mismatch))
     L.append('/-- the character `msg.signature[0]` is compared with -/')
     L.append('def structOpen : Char := %s' % ("'" + paren + "'" if paren not in "'\\" else "'\\" + paren + "'"))
     L.append('')
     L.append('/-- `error.TimeOut(...)` in `_onMethodTimeout` -/')
-    L.append('def timeoutText : String := %s' % lean_str(tstrs[0]))
+    L.append('def timeoutText : String := %s' % lean_str(ttext))
     L.append('')
-    L.append('/-- `DBusMessage._nextSerial = ...` and the `+=` in `_marshal` -/')
-    if init < 0 or incs[0] < 0:
-        raise TranslatorError('negative serial counter start or step (%d, %d)' % (init, incs[0]))
-    L.append('def serialInit : Nat := %d' % init)
-    L.append('def serialStep : Nat := %d' % incs[0])
+    L.append('/-- `self.serial = DBusMessage._nextSerial` and then `DBusMessage._nextSerial += serialStep` -/')
+    L.append('def serialStep : Nat := %d' % step)
+    L.append('')
+    L.append('/-- `connectionLost` calls each disconnect callback inside a `try` that catches its exception -/')
+    L.append('def dcGuarded : Bool := %s' % ('true' if guarded else 'false'))
     L.append('')
     L.append('end Txdbus.Gen.C08Client')
     L.append('')
